@@ -163,8 +163,12 @@ func throughJSON(x poly.Sequence) (poly.Sequence, error) {
 	if err != nil {
 		return poly.Sequence{}, vk.Harnessf("json.Marshal: %v", err)
 	}
-	y := polyjson.Parse(b)
-	vk.Scribble(b) // the caller re-uses its buffer: what Parse returned must not change with it
+	buf, intact := vk.Guarded(b) // the front part of a larger buffer of the caller's
+	y := polyjson.Parse(buf)
+	if err := intact(); err != nil {
+		return y, fmt.Errorf("polyjson.Parse: %v", err)
+	}
+	vk.Scribble(buf) // the caller re-uses its buffer: what Parse returned must not change with it
 	return y, nil
 }
 
@@ -236,6 +240,15 @@ func check(c Case) error {
 		return err
 	}
 	if err := sameValue("polyjson.Parse(json.Marshal(x))", x, y); err != nil {
+		return err
+	}
+	// the value read belongs to the caller: written into, the same document reads again to the value it holds
+	gbk.Vandalise(&y)
+	y2, err := throughJSON(x)
+	if err != nil {
+		return err
+	}
+	if err := sameValue("polyjson.Parse(json.Marshal(x)), a second time, after the caller had written into the first result", build(c), y2); err != nil {
 		return err
 	}
 	p := filepath.Join(vk.WorkDir(), "x.json")
